@@ -100,7 +100,7 @@ def split_delay(tape, total, parts):
 def gen_e1(tape, tier="quick", *, allow_pull=True, allow_cycles=True, allow_delay_push=True,
            allow_omission=True, allow_finish=False, allow_offsets=True, allow_faults=True,
            allow_delay=True, allow_buffering=True, allow_integrating=True, max_sim=5,
-           cycle_regime=None, pull_fanout=True, cycle_chance=(1, 3)):
+           cycle_regime=None, pull_fanout=True, cycle_chance=(1, 3), adapter_fanout=True):
     n_sim = tape.weighted([(2, 5), (3, 6), (4, 3), (5, 2)])
     n_sim = min(n_sim, max_sim)
     n_pull = tape.weighted([(0, 6), (1, 3), (2, 1)]) if allow_pull else 0
@@ -144,14 +144,31 @@ def gen_e1(tape, tier="quick", *, allow_pull=True, allow_cycles=True, allow_dela
     links = []
     pull_consumers = {}
 
-    def add_link(src_ci, dst_ci, chain):
+    def add_link(src_ci, dst_ci, chain, share=True):
         c = comps[src_ci]
         if c["outputs"] and tape.chance(1, 2) and not (c["kind"] == "pull" and not pull_fanout):
             oi = tape.draw(len(c["outputs"]))
         else:
             oi = new_output(src_ci)
         ii = new_input(dst_ci)
-        links.append({"src": [src_ci, oi], "dst": [dst_ci, ii], "chain": chain})
+        ln = {"src": [src_ci, oi], "dst": [dst_ci, ii], "chain": chain}
+        # fan-out at an adapter: share a prefix of stateless, branchable adapters with an earlier link of
+        # the same output (the very same adapter instances then have two targets)
+        if adapter_fanout and share and c["kind"] == "sim":
+            bases = [k for k, l in enumerate(links) if l["src"] == [src_ci, oi] and "shared_with" not in l]
+            if bases and tape.chance(1, 2):
+                b = bases[tape.draw(len(bases))]
+                pre = 0
+                for a in links[b]["chain"]:
+                    if a["kind"] in ("scale", "callback", "delay_fixed"):
+                        pre += 1
+                    else:
+                        break
+                if pre:
+                    k = 1 + tape.draw(pre)
+                    ln["chain"] = [dict(a) for a in links[b]["chain"][:k]] + chain
+                    ln["shared_with"], ln["shared_len"] = b, k
+        links.append(ln)
         return links[-1]
 
     def comp_upstream_kinds(ci, depth=0):
@@ -232,7 +249,7 @@ def gen_e1(tape, tier="quick", *, allow_pull=True, allow_cycles=True, allow_dela
                 # a buffering adapter may sit upstream of all delays
                 if allow_buffering and tape.chance(1, 4):
                     chain.insert(0, gen_adapter(tape, ["next", "prev", "linear", "step"]))
-            ln = add_link(late, early, chain)
+            ln = add_link(late, early, chain, share=False)
             comps[early]["inputs"][ln["dst"][1]]["initial_pull"] = tape.chance(1, 2)
             cycles.append({"link": len(links) - 1, "regime": regime, "need": need})
 
